@@ -233,6 +233,39 @@ func c13Units(tier string) []*Unit {
 			return out
 		}})
 	}
+	// a templated precondition (and a templated requires/enum-free guard message) is evaluated
+	// with the variables of each call: the first call passes, the second does not
+	for _, via := range []string{"call", "deps"} {
+		via := via
+		g := &T{Name: "g", Preconditions: []string{"test {{.X}} = ok"}, Cmds: []C{P()}}
+		r1, r2 := Ref{Task: "g", Vars: [][2]string{{"X", "ok"}}}, Ref{Task: "g", Vars: [][2]string{{"X", "bad"}}}
+		root := &T{Name: "root", Cmds: []C{{Call: &r1}, {Call: &r2}, P()}}
+		if via == "deps" {
+			root = &T{Name: "root", Cmds: []C{{Call: &r1}, Call("mid"), P()}}
+		}
+		pg := &Prog{Tasks: []*T{root, g, {Name: "mid", Deps: []Ref{r2}, Cmds: []C{P()}}}}
+		sc := scen("templated-precondition-second-call-fails/"+via, pg, vlab.Options{}, "root")
+		us = append(us, &Unit{Name: sc.Name, Sc: sc, Bound: 1, Prune: true, Weight: 2, Check: func(x *vlab.Exec) []vlab.Violation {
+			out := generic("C13", x)
+			n := 0
+			for _, e := range vlab.ParseTrace(x.Trace) {
+				j, _ := e.CmdIndex()
+				if e.K == 'S' && e.Task == "g" {
+					n++
+				}
+				if e.K == 'S' && ((e.Task == "root" && j == 2) || e.Task == "mid") {
+					out = append(out, vlab.V("C13", "dependent_ran", "precondition:templated-second-call", fmt.Sprintf("%s continued although the second call of g fails its precondition (test bad = ok)", e.Task)))
+				}
+			}
+			if n != 1 {
+				out = append(out, vlab.V("C13", "guarded_task_ran", "precondition:templated-second-call", fmt.Sprintf("g ran %d times: the call with X=ok must run it, the call with X=bad must not", n)))
+			}
+			if x.Code == 0 {
+				out = append(out, vlab.V("C13", "status_zero", "precondition:templated-second-call", "the second call fails its precondition but the invocation succeeded"))
+			}
+			return out
+		}})
+	}
 	us = append(us, c13IncludeInternalUnit(), c13InternalByOtherNamesUnit())
 	us = append(us, c13PreconditionStateUnits()...)
 	sort.SliceStable(us, func(i, j int) bool { return us[i].Name < us[j].Name })
